@@ -20,6 +20,7 @@ type Program struct {
 	Pkgs     []*packages.Package
 	Harness  *ssa.Package // package containing the harness entry points
 	RepoRoot string
+	Stubs    map[string]string // function full name -> harness function replacing it
 	LoadTime time.Duration
 	SSATime  time.Duration
 
